@@ -1225,6 +1225,10 @@ func (p *Printer) command(cmd Command, redirs []*Redirect) (startRedirs int) {
 		// Forbid "foo()\n{ bar; }"
 		p.wantNewline = p.wantNewline || p.funcNextLine
 		p.nestedStmts(cmd.Stmts, cmd.Last, cmd.Rbrace)
+		if p.minify && len(cmd.Stmts) == 0 {
+			// An empty block; "{}" would be a word.
+			p.space()
+		}
 		p.semiRsrv("}", cmd.Rbrace)
 	case *IfClause:
 		p.ifClause(cmd, false)
